@@ -201,6 +201,9 @@ def axis_conflicts(func_node):
                     checked += 1
                     if tt != vt:
                         out.append((n, f'`{unparse(t, 40)}` ({tt}) is assigned the {vt}-axis value `{unparse(n.value, 60)}`'))
+                if not isinstance(tt, tuple) and isinstance(vt, tuple) and isinstance(n.value, (ast.Tuple, ast.List)):
+                    o = order_of(t)
+                    tt = ('P', Y, X) if o == 'YX' else ('P', X, Y) if o == 'XY' else tt
                 if isinstance(tt, tuple) and isinstance(vt, tuple):
                     checked += 1
                     if tt != vt:
